@@ -9,6 +9,7 @@ package raft_test
 
 import (
 	"fmt"
+	"os"
 	"testing"
 
 	"github.com/lni/dragonboat/v4/internal/logdb"
@@ -549,7 +550,10 @@ func (s *c19) Canon() []byte {
 	f, l := s.lr.GetRange()
 	c.Sep('r').U(f, l)
 	c.Sep('d').U(s.db.MaxIndex(1, 1))
-	for i := uint64(1); i <= s.maxIdx+2; i++ {
+	// only entries the LogReader can still reach (above its marker) are state:
+	// the in-memory store keeps stale entries at or below a later snapshot
+	// index, which no read can return any more
+	for i := f; i <= s.maxIdx+2; i++ {
 		t, ok := s.db.Persisted(1, 1, i)
 		c.U(t).Bool(ok)
 	}
@@ -590,7 +594,7 @@ func TestVerifC19(t *testing.T) {
 		Path []uint32 `json:"path"`
 		Cfg  int      `json:"cfg"`
 	}
-	cfgs := []cfgT{{5, 3, false}, {5, 3, true}}
+	cfgs := []cfgT{{6, 3, false}, {6, 3, true}}
 	if run.Thorough() {
 		cfgs = []cfgT{{7, 4, false}, {7, 4, true}}
 	}
@@ -663,4 +667,125 @@ func keyOf19(msg string) string {
 		out = append(out, msg[i])
 	}
 	return "C19:" + string(out)
+}
+
+// TestVerifC19Congruence is a development aid: it explores a small
+// configuration sequentially and reports pairs of states that have the same
+// canonical key but differ in a deep (reflection) dump of the real objects,
+// i.e. state the canonical form does not capture.
+func TestVerifC19Congruence(t *testing.T) {
+	if os.Getenv("VERIF_CONGRUENCE") == "" {
+		t.Skip("development aid")
+	}
+	skip := map[string]bool{"LogReader.Mutex": true, "LogReader.logdb": true, "LogReader.compactor": true, "entryLog.logdb": true,
+		"inMemory.rl": true, "DB.mu": true, "DB.Saves": true, "DB.Hook": true, "LogReader.state": true, "node.state": true, "node.hasState": true, "node.entries": true}
+	deep := func(s *c19) string {
+		c := &verifkit.CanonBuf{}
+		verifkit.ReflectCanon(c, s.l, skip)
+		c.Sep('|')
+		verifkit.ReflectCanon(c, s.lr, skip)
+		c.Sep('|')
+		verifkit.ReflectCanon(c, s.db, skip)
+		return string(c.B)
+	}
+	type rep struct {
+		path []uint32
+		deep string
+	}
+	var split bool
+	succ := func(p []uint32) string {
+		base, _ := verifkit.Replay(func() verifkit.Instance { return newC19(4, 3, split) }, p)
+		out := ""
+		for _, e := range base.Enabled() {
+			inst, _ := verifkit.Replay(func() verifkit.Instance { return newC19(4, 3, split) }, p)
+			if m := inst.Step(e); m != "" {
+				out += fmt.Sprintf("%s:FAIL(%s);", describe19(e), m)
+				continue
+			}
+			if m := inst.Check(); m != "" {
+				out += fmt.Sprintf("%s:CHECK(%s);", describe19(e), m)
+				continue
+			}
+			out += fmt.Sprintf("%s:%x;", describe19(e), verifkit.Hash64(string(inst.Canon())))
+		}
+		return out
+	}
+	seen := map[string]*rep{}
+	root := newC19(4, 3, os.Getenv("VERIF_CONGRUENCE") == "split")
+	split = root.split
+	seen[string(root.Canon())] = &rep{nil, deep(root)}
+	frontier := [][]uint32{nil}
+	reported := 0
+	for len(frontier) > 0 && reported < 3 {
+		var next [][]uint32
+		for _, p := range frontier {
+			base, _ := verifkit.Replay(func() verifkit.Instance { return newC19(4, 3, root.split) }, p)
+			for _, e := range base.Enabled() {
+				inst, _ := verifkit.Replay(func() verifkit.Instance { return newC19(4, 3, root.split) }, p)
+				if inst.Step(e) != "" {
+					continue
+				}
+				s := inst.(*c19)
+				k, d := string(s.Canon()), deep(s)
+				np := append(append([]uint32{}, p...), e)
+				if r, ok := seen[k]; ok {
+					if r.deep != d && reported < 3 && succ(r.path) != succ(np) {
+						reported++
+						fmt.Printf("SAME KEY, DIFFERENT DEEP STATE\n A: %v\n B: %v\n", verifkit.PathString(r.path, describe19), verifkit.PathString(np, describe19))
+						a, b := r.deep, d
+						i := 0
+						for i < len(a) && i < len(b) && a[i] == b[i] {
+							i++
+						}
+						lo := i - 60
+						if lo < 0 {
+							lo = 0
+						}
+						fmt.Printf(" first difference at byte %d\n  A: %q\n  B: %q\n succ A: %s\n succ B: %s\n", i, a[lo:min(len(a), i+60)], b[lo:min(len(b), i+60)], succ(r.path), succ(np))
+					}
+					continue
+				}
+				seen[k] = &rep{np, d}
+				next = append(next, np)
+			}
+		}
+		frontier = next
+	}
+	fmt.Printf("congruence probe: %d states, %d differing pairs reported\n", len(seen), reported)
+}
+
+func TestVerifC19Diff(t *testing.T) {
+	if os.Getenv("VERIF_CONGRUENCE") == "" {
+		t.Skip("development aid")
+	}
+	mk := func(evs []uint32) *c19 {
+		s := newC19(4, 3, false)
+		for _, e := range evs {
+			if m := s.Step(e); m != "" {
+				panic(m)
+			}
+		}
+		return s
+	}
+	find := func(s *c19, name string) uint32 {
+		for _, e := range s.Enabled() {
+			if describe19(e) == name {
+				return e
+			}
+		}
+		panic("not enabled: " + name)
+	}
+	run := func(names []string) *c19 {
+		var evs []uint32
+		for _, n := range names {
+			s := mk(evs)
+			evs = append(evs, find(s, n))
+		}
+		return mk(evs)
+	}
+	a := run([]string{"leaderAppend(n=1,bumpTerm=0)", "leaderAppend(n=1,bumpTerm=1)", "cycle(moreToApply=0,compact=none)", "restore(committed+1)", "cycle(moreToApply=0,compact=none)", "restore(committed+1)", "cycle(moreToApply=0,compact=none)"})
+	b := run([]string{"leaderAppend(n=1,bumpTerm=0)", "cycle(moreToApply=0,compact=none)", "restore(committed+1)", "cycle(moreToApply=0,compact=none)", "leaderAppend(n=1,bumpTerm=0)", "restore(committed+1)", "cycle(moreToApply=0,compact=none)"})
+	fmt.Printf("A %x\nB %x\n", a.Canon(), b.Canon())
+	fmt.Printf("A model snap=%d/%d ents=%v committed=%d processed=%d applied=%d queue=%v\n", a.snapIndex, a.snapTerm, a.ents, a.committed, a.processed, a.applied, a.queue)
+	fmt.Printf("B model snap=%d/%d ents=%v committed=%d processed=%d applied=%d queue=%v\n", b.snapIndex, b.snapTerm, b.ents, b.committed, b.processed, b.applied, b.queue)
 }
